@@ -14,7 +14,8 @@ import genlib as G
 
 A = "routee-compass-core/src/algorithm/search/"
 OBLIGATIONS = ["run_a_star", "advance_search", "get_last_traversed_edge_id", "tree_key_vertex_id", "terminal_vertex_id",
-               "lemma_no_revisit", "lemma_iteration_limit", "lemma_size_limit", "lemma_route_edges_permitted", "lemma_closed_step", "lemma_reachable_is_labelled", "lemma_no_path_means_unreachable"]
+               "lemma_no_revisit", "lemma_iteration_limit", "lemma_size_limit", "lemma_route_edges_permitted", "lemma_closed_step", "lemma_reachable_is_labelled", "lemma_no_path_means_unreachable",
+               "lemma_path_prefix", "lemma_label_le_path", "lemma_chain_cost_le_label", "lemma_tree_route_least"]
 MUST_FAIL = ["vacuity_probe"]
 
 HEAD = """#![allow(unused_imports, unused_variables, dead_code, unused_mut, unused_parens, unused_assignments)]
@@ -121,6 +122,8 @@ pub uninterp spec fn incident(g: &Graph, d: Direction, v: VertexId) -> Seq<EdgeI
 pub uninterp spec fn permitted(fm: &FrontierModel, e: Edge, s: Seq<StateVar>, last: Option<Edge>) -> bool;   // the frontier model's answer [C04.1-6]
 pub uninterp spec fn limit_ok(tm: &TerminationModel, size: nat, it: nat) -> bool;    // TerminationModel::test returns Ok       [C10.1-2]
 
+pub uninterp spec fn cost_local(si: &SearchInstance) -> bool;                       // hypothesis of C02 / C05: edge costs do not depend on how the edge was reached
+pub uninterp spec fn edge_w(si: &SearchInstance, d: Direction, e: EdgeId) -> real;    // ... and then this is the cost of edge e
 pub open spec fn key_spec(d: Direction, e: Edge) -> VertexId { match d { Direction::Forward => e.dst_vertex_id, Direction::Reverse => e.src_vertex_id } }
 pub open spec fn term_spec(d: Direction, e: Edge) -> VertexId { match d { Direction::Forward => e.src_vertex_id, Direction::Reverse => e.dst_vertex_id } }
 
@@ -220,6 +223,9 @@ DIR_SHIMS = """
     #[verifier::external_body]
     pub fn perform_edge_traversal(&self, e: EdgeId, last: Option<EdgeId>, st: &Vec<StateVar>, si: &SearchInstance) -> (r: Result<EdgeTraversal, SearchError>)
         ensures r matches Ok(et) ==> et.edge_id == e && !c_inf(et_cost(et)) && c_val(et_cost(et)) > 0real,
+                // DEFINITION of the hypothesis `cost_local` of C02 / C05 ("the cost of an edge does not depend on how the edge was reached"):
+                // on such an instance the total cost of traversing edge e in this direction is ONE number, edge_w(si, d, e), whatever the state and the previous edge
+                r matches Ok(et) ==> (cost_local(si) ==> c_val(et_cost(et)) == edge_w(si, *self, e)),
                 r matches Err(err) ==> !(err is NoPathExistsBetweenVertices) && !(err is TerminationModelFailure)
     { unimplemented!() }
 """
@@ -266,6 +272,30 @@ pub open spec fn exp_ok(g: &Graph, fm: &FrontierModel, d: Direction, labels: Map
             refused.contains(#[trigger] incident(g, d, v)[i]) || labels.contains_key(key_spec(d, edge_of(g, incident(g, d, v)[i])))
     // an edge is recorded as refused only when the frontier model refused it (for some state / previous edge)
     &&& forall|e: EdgeId| #[trigger] refused.contains(e) ==> exists|s: Seq<StateVar>, last: Option<Edge>| !(#[trigger] permitted(fm, edge_of(g, e), s, last))
+}
+/// one relaxed edge: its far vertex is labelled, with a label not above the near vertex' label plus the edge's cost
+pub open spec fn relaxed(si: &SearchInstance, d: Direction, labels: Map<VertexId, Cost>, v: VertexId, eid: EdgeId) -> bool {
+    let far = key_spec(d, edge_of(&si.directed_graph, eid));
+    labels.contains_key(far) && lbl(labels, far) <= lbl(labels, v) + edge_w(si, d, eid)
+}
+/// BELL (C02 / C05 "least cost"): every incident edge of a vertex that has been expanded and is not waiting in the queue again
+/// was refused by the frontier model or is relaxed -- Bellman's condition on the settled part of the graph
+pub open spec fn bell_ok(si: &SearchInstance, d: Direction, labels: Map<VertexId, Cost>, queued: Set<VertexId>, expanded: Set<VertexId>, refused: Set<EdgeId>) -> bool {
+    forall|v: VertexId, i: int| expanded.contains(v) && !queued.contains(v) && 0 <= i < incident(&si.directed_graph, d, v).len() ==>
+        refused.contains(#[trigger] incident(&si.directed_graph, d, v)[i]) || relaxed(si, d, labels, v, incident(&si.directed_graph, d, v)[i])
+}
+/// TIED: the cost stored with a tree entry is the cost of its edge
+pub open spec fn tied_ok(si: &SearchInstance, d: Direction, t: Map<VertexId, SearchTreeBranch>) -> bool {
+    forall|k: VertexId| #[trigger] t.contains_key(k) ==> c_val(et_cost(t[k].edge_traversal)) == edge_w(si, d, t[k].edge_traversal.edge_id)
+}
+/// what a search WITHOUT a target returns on an instance whose edge costs do not depend on how the edge was reached:
+/// a tree with potentials that satisfy Bellman's condition on every permitted edge between labelled vertices (=> least-cost labels, lemma_tree_route_least)
+pub open spec fn least_post(si: &SearchInstance, d: Direction, source: VertexId, r: SearchResult) -> bool {
+    exists|labels: Map<VertexId, Cost>, expanded: Set<VertexId>, refused: Set<EdgeId>| {
+        &&& #[trigger] search_inv(si, d, source, None, r.tree@, labels, Set::<VertexId>::empty(), expanded, refused)
+        &&& bell_ok(si, d, labels, Set::<VertexId>::empty(), expanded, refused)
+        &&& tied_ok(si, d, r.tree@)
+    }
 }
 pub open spec fn search_inv(si: &SearchInstance, d: Direction, source: VertexId, target: Option<VertexId>, t: Map<VertexId, SearchTreeBranch>,
                             labels: Map<VertexId, Cost>, queued: Set<VertexId>, expanded: Set<VertexId>, refused: Set<EdgeId>) -> bool {
@@ -382,14 +412,28 @@ pub proof fn lemma_closed_step(si: &SearchInstance, d: Direction, source: Vertex
     }
 }
 /// a path of the graph in the search direction that the (edge-local) frontier model lets through: vertex k+1 is the far end of the idx[k]-th incident edge of vertex k
+/// one step of such a path (a dedicated step predicate is the quantifier's trigger: a bare `path[k]` with `path[k + 1]` in the body would be a matching loop)
+pub open spec fn pstep(si: &SearchInstance, d: Direction, path: Seq<VertexId>, idx: Seq<int>, k: int) -> bool {
+    let inc = incident(&si.directed_graph, d, path[k]);
+    &&& 0 <= idx[k] < inc.len()
+    &&& path[k + 1] == key_spec(d, edge_of(&si.directed_graph, inc[idx[k]]))
+    &&& forall|s: Seq<StateVar>, last: Option<Edge>| permitted(&si.frontier_model, edge_of(&si.directed_graph, inc[idx[k]]), s, last)
+}
 pub open spec fn permitted_path(si: &SearchInstance, d: Direction, path: Seq<VertexId>, idx: Seq<int>) -> bool {
     &&& path.len() >= 1 && idx.len() == path.len() - 1
-    &&& forall|k: int| 0 <= k < idx.len() ==> {
-            let inc = incident(&si.directed_graph, d, #[trigger] path[k]);
-            &&& 0 <= idx[k] < inc.len()
-            &&& path[k + 1] == key_spec(d, edge_of(&si.directed_graph, inc[idx[k]]))
-            &&& forall|s: Seq<StateVar>, last: Option<Edge>| permitted(&si.frontier_model, edge_of(&si.directed_graph, inc[idx[k]]), s, last)
-        }
+    &&& forall|k: int| 0 <= k < idx.len() ==> #[trigger] pstep(si, d, path, idx, k)
+}
+/// a prefix of a permitted path is one
+pub proof fn lemma_path_prefix(si: &SearchInstance, d: Direction, path: Seq<VertexId>, idx: Seq<int>)
+    requires permitted_path(si, d, path, idx), path.len() >= 2
+    ensures permitted_path(si, d, path.drop_last(), idx.drop_last()), pstep(si, d, path, idx, path.len() - 2)
+{
+    let p2 = path.drop_last(); let i2 = idx.drop_last();
+    assert forall|k: int| 0 <= k < i2.len() implies #[trigger] pstep(si, d, p2, i2, k) by {
+        assert(pstep(si, d, path, idx, k));
+        assert(p2[k] == path[k]); assert(p2[k + 1] == path[k + 1]); assert(i2[k] == idx[k]);
+    }
+    assert(pstep(si, d, path, idx, path.len() - 2));
 }
 pub open spec fn edge_local(fm: &FrontierModel) -> bool {
     forall|e: Edge, s1: Seq<StateVar>, l1: Option<Edge>, s2: Seq<StateVar>, l2: Option<Edge>| permitted(fm, e, s1, l1) == permitted(fm, e, s2, l2)
@@ -407,14 +451,7 @@ pub proof fn lemma_reachable_is_labelled(si: &SearchInstance, d: Direction, sour
     else {
         let n = path.len() as int;
         let p2 = path.drop_last(); let i2 = idx.drop_last();
-        assert(permitted_path(si, d, p2, i2)) by {
-            assert forall|k: int| 0 <= k < i2.len() implies ({
-                let inc = incident(g, d, #[trigger] p2[k]);
-                &&& 0 <= i2[k] < inc.len() && p2[k + 1] == key_spec(d, edge_of(g, inc[i2[k]]))
-                &&& forall|s: Seq<StateVar>, last: Option<Edge>| permitted(&si.frontier_model, edge_of(g, inc[i2[k]]), s, last) }) by {
-                assert(p2[k] == path[k]); assert(p2[k + 1] == path[k + 1]); assert(i2[k] == idx[k]);
-            }
-        }
+        lemma_path_prefix(si, d, path, idx);
         lemma_reachable_is_labelled(si, d, source, target, t, labels, expanded, refused, p2, i2);
         let v = path[n - 2]; let i = idx[n - 2];
         assert(p2.last() == v);
@@ -438,6 +475,82 @@ pub proof fn lemma_no_path_means_unreachable(si: &SearchInstance, d: Direction, 
     let (t, labels, expanded, refused) = choose|t: Map<VertexId, SearchTreeBranch>, labels: Map<VertexId, Cost>, expanded: Set<VertexId>, refused: Set<EdgeId>|
         #[trigger] search_inv(si, d, source, Some(tv), t, labels, Set::<VertexId>::empty(), expanded, refused) && !labels.contains_key(tv);
     lemma_reachable_is_labelled(si, d, source, Some(tv), t, labels, expanded, refused, path, idx);
+}
+
+// ===== C02 / C05 "least cost": at queue exhaustion the labels are Bellman potentials, so the tree's own route to a vertex costs no more than ANY permitted path to it =====
+
+/// cost of a permitted path (sum of the edge costs along it)
+pub open spec fn path_cost(si: &SearchInstance, d: Direction, path: Seq<VertexId>, idx: Seq<int>) -> real
+    decreases idx.len()
+{
+    if idx.len() == 0 || path.len() != idx.len() + 1 { 0real }
+    else { path_cost(si, d, path.drop_last(), idx.drop_last()) + edge_w(si, d, incident(&si.directed_graph, d, path[path.len() - 2])[idx.last()]) }
+}
+/// (1) the label of a vertex is a LOWER bound of the cost of every permitted path from the source to it (induction on the path; Bellman's condition at each step)
+pub proof fn lemma_label_le_path(si: &SearchInstance, d: Direction, source: VertexId, t: Map<VertexId, SearchTreeBranch>, labels: Map<VertexId, Cost>,
+                                 expanded: Set<VertexId>, refused: Set<EdgeId>, path: Seq<VertexId>, idx: Seq<int>)
+    requires search_inv(si, d, source, None, t, labels, Set::<VertexId>::empty(), expanded, refused), edge_local(&si.frontier_model),
+             bell_ok(si, d, labels, Set::<VertexId>::empty(), expanded, refused),
+             permitted_path(si, d, path, idx), path[0] == source
+    ensures labels.contains_key(path.last()), lbl(labels, path.last()) <= path_cost(si, d, path, idx)
+    decreases path.len()
+{
+    let g = &si.directed_graph;
+    if path.len() == 1 { assert(path.last() == path[0]); }
+    else {
+        let n = path.len() as int;
+        let p2 = path.drop_last(); let i2 = idx.drop_last();
+        lemma_path_prefix(si, d, path, idx);
+        lemma_label_le_path(si, d, source, t, labels, expanded, refused, p2, i2);
+        let v = path[n - 2]; let i = idx[n - 2];
+        assert(p2.last() == v);
+        assert(idx.last() == i);
+        let eid = incident(g, d, v)[i];
+        assert(expanded.contains(v));
+        if refused.contains(eid) {
+            let (s0, l0) = choose|s: Seq<StateVar>, last: Option<Edge>| !(#[trigger] permitted(&si.frontier_model, edge_of(g, eid), s, last));
+            assert(permitted(&si.frontier_model, edge_of(g, eid), s0, l0));
+            assert(false);
+        }
+        assert(relaxed(si, d, labels, v, eid));
+        assert(path.last() == path[n - 1]);
+    }
+}
+/// cost of the tree's own route along a chain of parent links (what the route reports as its cost)
+pub open spec fn chain_cost(t: Map<VertexId, SearchTreeBranch>, c: Seq<VertexId>) -> real
+    decreases c.len()
+{
+    if c.len() <= 1 { 0real } else { c_val(et_cost(t[c[0]].edge_traversal)) + chain_cost(t, c.subrange(1, c.len() as int)) }
+}
+/// (2) the cost accumulated along a chain of parent links is at most the difference of the labels at its ends (telescoping POT)
+pub proof fn lemma_chain_cost_le_label(source: VertexId, t: Map<VertexId, SearchTreeBranch>, labels: Map<VertexId, Cost>, c: Seq<VertexId>)
+    requires dom_ok(source, t, labels), pot_ok(source, t, labels), parent_chain(t, c)
+    ensures chain_cost(t, c) <= lbl(labels, c[0]) - lbl(labels, c.last())
+    decreases c.len()
+{
+    if c.len() <= 1 { assert(c.last() == c[0]); }
+    else {
+        let c2 = c.subrange(1, c.len() as int);
+        assert(parent_chain(t, c2)) by { assert forall|i: int| 0 <= i < c2.len() - 1 implies #[trigger] t.contains_key(c2[i]) && t[c2[i]].terminal_vertex == c2[i + 1] by { assert(c2[i] == c[i + 1]); assert(c2[i + 1] == c[i + 2]); assert(t.contains_key(c[i + 1])); } }
+        lemma_chain_cost_le_label(source, t, labels, c2);
+        assert(t.contains_key(c[0]));
+        assert(c2[0] == c[1]); assert(c2.last() == c.last());
+    }
+}
+/// C02 / C05: for a tree search (no target) on an instance whose edge costs do not depend on how the edge was reached and whose frontier model is edge-local,
+/// the route the tree stores for a vertex -- its chain of parent links back to the source -- costs NO MORE THAN ANY permitted path from the source to that vertex,
+/// and the vertex' label is exactly in between: the tree's routes are least-cost routes and the labels are the least costs
+pub proof fn lemma_tree_route_least(si: &SearchInstance, d: Direction, source: VertexId, r: SearchResult, c: Seq<VertexId>, path: Seq<VertexId>, idx: Seq<int>)
+    requires least_post(si, d, source, r), edge_local(&si.frontier_model),
+             parent_chain(r.tree@, c), c.last() == source,
+             permitted_path(si, d, path, idx), path[0] == source, path.last() == c[0]
+    ensures chain_cost(r.tree@, c) <= path_cost(si, d, path, idx)
+{
+    let (labels, expanded, refused) = choose|labels: Map<VertexId, Cost>, expanded: Set<VertexId>, refused: Set<EdgeId>|
+        #[trigger] search_inv(si, d, source, None, r.tree@, labels, Set::<VertexId>::empty(), expanded, refused)
+        && bell_ok(si, d, labels, Set::<VertexId>::empty(), expanded, refused) && tied_ok(si, d, r.tree@);
+    lemma_label_le_path(si, d, source, r.tree@, labels, expanded, refused, path, idx);
+    lemma_chain_cost_le_label(source, r.tree@, labels, c);
 }
 """
 
@@ -519,6 +632,8 @@ def build(x):
     ra.add_spec("""    ensures
         // C01 / C04.7 / C05 / C10.3 on success
         res matches Ok(r) ==> search_post(si, *direction, source, target, r),
+        // C02 / C05 (least cost): a tree search on an instance whose edge costs do not depend on how the edge was reached returns Bellman potentials
+        res matches Ok(r) ==> (target is None && cost_local(si) ==> least_post(si, *direction, source, r)),
         // C05 / C10: 'no path' names this query; a limit failure is returned as such
         res matches Err(e) ==> (e is NoPathExistsBetweenVertices ==> target is Some && e == SearchError::NoPathExistsBetweenVertices(source, target->Some_0)
                                     && nopath_post(si, *direction, source, target->Some_0)),""")
@@ -533,22 +648,25 @@ def build(x):
             dom_ok(source, solution@, traversal_costs@),
             pot_ok(source, solution@, traversal_costs@),
             exp_ok(&si.directed_graph, &si.frontier_model, *direction, traversal_costs@, %s, expanded, refused),
-            target matches Some(tv) ==> !expanded.contains(tv),"""
+            target matches Some(tv) ==> !expanded.contains(tv),
+            cost_local(si) ==> bell_ok(si, *direction, traversal_costs@, %s, expanded, refused),
+            cost_local(si) ==> tied_ok(si, *direction, solution@),"""
     INV = """            vstd::std_specs::hash::obeys_key_model::<VertexId>(),
             !c_inf(Cost::ZERO), c_val(Cost::ZERO) == 0real, c_inf(Cost::INFINITY),
             target != Some(source),
             iterations > 0 ==> exists|n: nat| #[trigger] limit_ok(&si.termination_model, n, (iterations - 1) as nat),
             // Q (C02): a queued vertex' priority is never worse than the f-score of its latest label
             forall|v: VertexId| #[trigger] costs@.contains_key(v) ==> fs.contains_key(v) && !c_lt(fs[v], costs@[v]),"""
-    ra.add_loop_spec(1, "        invariant_except_break\n" + INVQ % "costs@.dom()" + "\n        invariant\n" + INV + """
+    ra.add_loop_spec(1, "        invariant_except_break\n" + INVQ % ("costs@.dom()", "costs@.dom()") + "\n        invariant\n" + INV + """
         ensures
             tree_wf(&si.directed_graph, &si.frontier_model, *direction, solution@),
             dom_ok(source, solution@, traversal_costs@),
             pot_ok(source, solution@, traversal_costs@),
             target is None ==> exp_ok(&si.directed_graph, &si.frontier_model, *direction, traversal_costs@, Set::<VertexId>::empty(), expanded, refused),
+            (target is None && cost_local(si)) ==> bell_ok(si, *direction, traversal_costs@, Set::<VertexId>::empty(), expanded, refused) && tied_ok(si, *direction, solution@),
             target matches Some(tv) ==> solution@.contains_key(tv),""")
     ra.add_loop_spec(2, "            invariant\n" + INV + """
-""" + INVQ % "costs@.dom().insert(current_vertex_id)" + """
+""" + INVQ % ("costs@.dom().insert(current_vertex_id)", "costs@.dom().insert(current_vertex_id)") + """
             iterations < u64::MAX,
             limit_ok(&si.termination_model, tested_size, iterations as nat),
             target != Some(current_vertex_id),
@@ -560,6 +678,8 @@ def build(x):
             // the part of the expansion already done
             forall|i: int| 0 <= i < verif_it.pos() ==> refused.contains(#[trigger] verif_it.seq()[i])
                 || traversal_costs@.contains_key(key_spec(*direction, edge_of(&si.directed_graph, verif_it.seq()[i]))),
+            cost_local(si) ==> forall|i: int| 0 <= i < verif_it.pos() ==> refused.contains(#[trigger] verif_it.seq()[i])
+                || relaxed(si, *direction, traversal_costs@, current_vertex_id, verif_it.seq()[i]),
             ensures verif_it.pos() >= verif_it.seq().len(),""")
     # ---- proof hints (add-only) ----
     EXPQ = "exp_ok(&si.directed_graph, &si.frontier_model, *direction, traversal_costs@, costs@.dom().insert(current_vertex_id), expanded, refused)"
@@ -655,6 +775,12 @@ def build(x):
             }
         }""")
     ra.insert_after(r"iterations \+= 1;", "        proof { /*verif:obligation (CNT)*/ assert(limit_ok(&si.termination_model, tested_size, (iterations - 1) as nat)); }")
+    ra.insert_after(r"let result = SearchResult::new\(solution, iterations\);", """
+    proof {
+        if target is None && cost_local(si) {
+            assert(search_inv(si, *direction, source, None, result.tree@, traversal_costs@, Set::<VertexId>::empty(), expanded, refused));
+        }
+    }""")
     parts.append(ra.text + "\n\n" + adv.text + "\n\n" + gl.text + "\n")
     parts.append(LEMMAS)
     parts.append("""
